@@ -50,6 +50,7 @@ func C04(c *Ctx) {
 	c.R.Rule("C04-R5", "E5", "target resolved from the resulting bindings", 1)
 	c.R.Rule("C04-R6", "E3", "only the matcher and the guard decide a branch", 2)
 	c.R.Rule("C04-R8", "E3", "a script that returns an object yields non-nil bindings (an accepting guard is not read as a rejecting one)", 1)
+	c.shareRule("C18", "C18-R3", "C04-R10", "a guard's rejection survives the wrapper every guard runs through: nil bindings stay nil")
 	c.R.Rule("C04-R9", "E7", "who may write: the engine never assigns the spec's action-error routing settings", 1)
 	c.R.Rule("C04-R7", "E1", "a guard or action cannot change the current bindings in place (scripts see copies)", 1)
 	step := c.fn("core", "Spec", "Step")
